@@ -129,6 +129,23 @@ Theorem C10_checker_sound : forall rnd n p q A eps X tol tol_s,
 Proof. exact C10_checkb_sound. Qed.
 Print Assumptions C10_checker_sound.
 
+(* certified checker for the convergence report: flag CONVERGED => the returned coupled matrix and the returned error meet the
+   configured tolerance (evaluated in coqc on the implementation's own M, flag, error) *)
+Theorem C10_conv_flag_checker_sound : forall rnd n M fl err tol,
+  conv_flag_checkb (R_ops rnd) n M fl err tol = true -> fl = CONVERGED ->
+  maxabs (R_ops rnd) n (msub (R_ops rnd) M (mid (R_ops rnd))) <= tol /\ err <= tol.
+Proof. exact conv_flag_checkb_sound. Qed.
+Print Assumptions C10_conv_flag_checker_sound.
+
+(* certified checker for the eigen path at ANY requested root (also Fraction(r / exponent_multiplier)): X acts on every returned
+   eigenvector as multiplication by the shifted eigenvalue raised to the exponent of the requested root *)
+Theorem C10_eigpair_checker_sound : forall rnd n p q eps enh L Q X tol,
+  eigpair_checkb (R_ops rnd) n p q eps enh L Q X tol = true ->
+  forall k i, (k < n)%nat -> (i < n)%nat ->
+    Rabs (mvec (R_ops rnd) n X (mcol Q k) i - eigen_d rnd n p q eps enh L k * Q i k) <= tol * eigen_d rnd n p q eps enh L k.
+Proof. exact eigpair_checkb_sound. Qed.
+Print Assumptions C10_eigpair_checker_sound.
+
 (* non-vacuity: all hypotheses of the theorems above hold together on a concrete 2x2 instance *)
 Theorem C10_hypotheses_satisfiable :
   eigh_contract idr 2 Aex Lex Qex /\ psd idr 2 Aex
